@@ -16,7 +16,7 @@ import (
 )
 
 // profileOf: the action profile a property is proved under (DESIGN 2.2).
-var profileOf = map[string]string{"C06": "pure", "C10": "pure", "C12": "pure", "C18": "pure", "C04": "pure", "C05": "pure", "C08": "pure", "C14": "pure", "C15": "pure"}
+var profileOf = map[string]string{"C06": "pure", "C10": "pure", "C12": "pure", "C18": "pure", "C04": "pure", "C05": "pure", "C08": "pure", "C14": "pure", "C15": "pure", "C16": "pure"}
 
 // boundedOf: bounded stand-ins (labelled bounded, never counted as proved) that
 // run the real code on every input of a stated finite space.
